@@ -320,6 +320,43 @@ def oracle(case):
             if now.shape != snap[m].shape or not np.array_equal(now, snap[m], equal_nan=True):
                 return (f"{m}(): the value returned for this particle was {snap[m].tolist()} and reads {now.tolist()} after the "
                         f"accessors of this particle again and of another particle were called - a returned result is not the caller's own")
+    # copies: a particle obtained by copy.deepcopy / copy.copy / a pickle round trip has the same attributes and must give the same
+    # answers - also when other particles (with other momenta) lived and died before at the addresses the copies land on
+    import copy as _copy, gc as _gc, pickle as _pickle
+    for path in paths:
+        p = build(V, path)
+        ref = {m: call(p, m) for m in methods}
+        with warnings.catch_warnings(), np.errstate(all="ignore"):
+            warnings.simplefilter("ignore")
+            junk = []
+            for i in range(40):
+                other = dict(V)
+                for a in ("px", "py", "pz", "E", "t", "z", "x", "y"):
+                    if other.get(a) is not None and math.isfinite(other[a]):
+                        other[a] = other[a] * (1.5 + i) + 0.25 * (i + 1)
+                try:
+                    o = build(other, path)
+                    for m in methods:
+                        call(o, m)
+                    junk.append(o)
+                except Exception:
+                    pass
+            del junk
+            try:
+                del o
+            except NameError:
+                pass
+            _gc.collect()
+            copies = []
+            for i in range(60):
+                c = _copy.deepcopy(p) if i % 3 == 0 else _copy.copy(p) if i % 3 == 1 else _pickle.loads(_pickle.dumps(p))
+                copies.append(c)
+        for c in copies:
+            for m in methods:
+                got_c = call(c, m)
+                if json.dumps(got_c) != json.dumps(ref[m]) and not (got_c[0] == "nan" and ref[m][0] == "nan"):
+                    return (f"{m}() of a copy (copy / deepcopy / pickle) of the particle returns {got_c}, the particle itself returns {ref[m]}: "
+                            f"the answer depends on something other than the particle's own attributes")
     if case.get("kind") == "unset":
         return None
     # symmetries (inputs of the transformed particle must stay inside the domain: same magnitudes)
@@ -380,6 +417,18 @@ def unset_cases(an):
                             vals[a] = BASE[a]
                         else:
                             vals[a] = None
+                    out.append({"kind": "unset", "methods": [m], "unset": list(S), "others": others, "values": vals})
+    return out
+
+
+def required_unset_cases():
+    """every method x every subset of the inputs the PROPERTY says it needs (REQUIRED) unset x {others set, others unset}"""
+    out = []
+    for m in METHODS:
+        for k in range(len(REQUIRED[m]) + 1):
+            for S in itertools.combinations(REQUIRED[m], k):
+                for others in ("set", "unset"):
+                    vals = {a: (None if a in S or (others == "unset" and a not in REQUIRED[m]) else BASE[a]) for a in KIN + ["pdg"]}
                     out.append({"kind": "unset", "methods": [m], "unset": list(S), "others": others, "values": vals})
     return out
 
@@ -500,6 +549,32 @@ def gen_sample(rng, stream=None):
             V["E"] = pz
             V["pz"] = pz * (1 - 2.0 ** -rng.choice([40, 45, 50]))
             V["px"] = V["py"] = 0.0
+    elif stream == "axis":
+        # exact zeros and integer-valued components: momenta / positions along or in the coordinate planes (phi exactly pi,
+        # +-pi/2, 0; theta = pi/2; y = eta = eta_s = 0; L with vanishing components), values that are whole numbers
+        k = lambda: float(rng.choice([-1, 1]) * rng.randint(1, 4))
+        sub = rng.choice(["phi=pi", "px=0", "py=0", "pz=0", "z=0", "r=0", "ints", "r||p"])
+        V["px"], V["py"], V["pz"] = k(), k(), k()
+        V["x"], V["y"] = k(), k()
+        V["t"] = float(rng.randint(5, 9))
+        V["z"] = float(rng.randint(-4, 4))
+        if sub == "phi=pi":
+            V["px"], V["py"] = -abs(V["px"]), 0.0
+        elif sub == "px=0":
+            V["px"] = 0.0
+        elif sub == "py=0":
+            V["py"] = 0.0
+        elif sub == "pz=0":
+            V["pz"] = 0.0
+        elif sub == "z=0":
+            V["z"] = 0.0
+        elif sub == "r=0":
+            V["x"] = V["y"] = V["z"] = 0.0
+        elif sub == "r||p":
+            V["x"], V["y"], V["z"] = 2.0 * V["px"], 2.0 * V["py"], 2.0 * V["pz"]
+            V["t"] = abs(V["z"]) + float(rng.randint(1, 3))
+        V["E"] = rng.choice([_energy(rng.choice(masses), V["px"], V["py"], V["pz"]),
+                             float(math.ceil(_energy(0.0, V["px"], V["py"], V["pz"])) + rng.randint(1, 2))])
     else:   # infinite components: model and implementation must agree on the IEEE conventions
         V["px"], V["py"], V["pz"] = _mag(rng, -1, 1), _mag(rng, -1, 1), _mag(rng, -1, 1)
         V["E"] = _energy(0.13957, V["px"], V["py"], V["pz"])
@@ -775,12 +850,16 @@ def correspondence(ctx, model_ok=True):
     if os.path.isdir(corpus):
         for fn in sorted(os.listdir(corpus)):
             scases.append(json.load(open(os.path.join(corpus, fn)))["case"])
-    streams = ["generic", "ultra", "soft", "near", "unphysical", "regulated", "infinite"]
+    streams = ["generic", "ultra", "soft", "near", "unphysical", "regulated", "infinite", "axis"]
     for s in streams * 2:                      # every stream at least twice
         scases.append(gen_sample(ctx.rng, s))
     while len(scases) < n:
         scases.append(gen_sample(ctx.rng))
     scases = [c for c in scases if not risky(c)]
+    # the driver runs the property oracle (definitions from the case values, symmetries, returned values stay the caller's)
+    # on these as well: the sampled particles, further axis-aligned ones, and every subset of the property's OWN required
+    # inputs unset (REQUIRED - not the read sets the translator extracts from the source)
+    out["all_cases"] = scases + [gen_sample(ctx.rng, "axis") for _ in range(60 if ctx.quick else 600)] + required_unset_cases()
     dist = {"streams": {}, "results": {}, "unset_cases": len(ucases)}
     for c in scases:
         got = run_impl(c)
@@ -885,14 +964,11 @@ def search(ctx):
     cases = []
     if an is not None:
         cases += unset_cases(an)
-    else:   # translator unusable: enumerate over the property's own required sets
-        for m in METHODS:
-            for k in range(len(REQUIRED[m]) + 1):
-                for S in itertools.combinations(REQUIRED[m], k):
-                    cases.append({"kind": "unset", "methods": [m], "values": {a: (None if a in S else BASE[a]) for a in KIN + ["pdg"]}})
+    # ... and always over the property's own required sets (the read sets above come from the source under test)
+    cases += required_unset_cases()
     budget = 400 if ctx.quick else 4000
     for i in range(budget):
-        cases.append(gen_sample(ctx.rng))
+        cases.append(gen_sample(ctx.rng, "axis" if i % 10 == 9 else None))
     for c in cases:
         n += 1
         try:
